@@ -272,7 +272,7 @@ def w_history(ctx, rng, i):
         who = live[rng.integers(0, len(live))]
         ev = ["fresh", "same_object_edited", "near_equal", "other_size", "shape", "on_copy", "repeat_values", "retry_failed",
               "int_or_f32", "on_shared_edges", "reparameterised", "inverse_taken", "previous_result_edited", "non_finite_points",
-              "readonly_view_of_a_buffer"][rng.integers(0, 15)]
+              "readonly_view_of_a_buffer", "single_precision_rounding_of_the_previous", "longer_transform_derived"][rng.integers(0, 17)]
         n = n0
         outside = 0.35 if (is_pwa and rng.random() < 0.35) else 0.0
         if ev == "fresh" or prev is None:
@@ -293,6 +293,21 @@ def w_history(ctx, rng, i):
             except (ValueError, TypeError, IndexError):
                 pass
             owner[...] = domain_points(rng, who, d, len(owner), outside)
+        elif ev == "single_precision_rounding_of_the_previous":
+            # the same coordinates after a single-precision stage of a pipeline: other values (unless they were whole numbers)
+            x = prev.astype(np.float32)
+            if rng.random() < 0.5:
+                x = x.astype(float)
+        elif ev == "longer_transform_derived":
+            # something is derived from the transform out of place (composed with a further step) and thrown away: a query
+            import menpo.transform as _mt9
+            try:
+                with taps.quiet():
+                    other_ = _mt9.Translation(rng.uniform(-3, 3, d)) if rng.random() < 0.6 else _mt9.UniformScale(float(rng.uniform(0.5, 2.0)), d)
+                    (who.compose_before if rng.random() < 0.5 else who.compose_after)(other_)
+            except Exception:
+                continue
+            x = prev.copy()
         elif ev == "near_equal":
             x = prev + rng.choice([1e-3, 1e-6, 1e-9, 1e-12]) * rng.choice([-1, 1], prev.shape)
         elif ev == "other_size":
